@@ -11,6 +11,7 @@ import (
 	"sync/atomic"
 	"time"
 
+	"github.com/grindlemire/go-lucene/pkg/lucene/expr"
 	"github.com/grindlemire/go-lucene/verifharness/impl"
 	"github.com/grindlemire/go-lucene/verifharness/modelproc"
 )
@@ -18,23 +19,49 @@ import (
 // RunConfig is the command line of `drive run`.
 type RunConfig struct {
 	Prop, Tier, Modeld, Tables, Out, ReplayDir, Findings string
-	Seed                                                uint64
-	Workers                                             int
+	Seed                                                 uint64
+	Workers                                              int
 }
 
 // Case is one generated test case.
 type Case struct {
 	Gen  string `json:"gen"`            // generator that produced it
-	Kind string `json:"kind"`           // q | lex | pair | tree | uj | render | session
+	Kind string `json:"kind"`           // q | tree | pair | lex | uj | rt | render
 	S    string `json:"s"`              // input (query text / JSON bytes), raw bytes as a Go string
 	DF   string `json:"df,omitempty"`   // default field
 	S2   string `json:"s2,omitempty"`   // second input of a pair
 	DF2  string `json:"df2,omitempty"`  // default field of the second input
-	Rel  string `json:"rel,omitempty"`  // relation a pair must satisfy: same | samefail | erase
+	Rel  string `json:"rel,omitempty"`  // relation a pair must satisfy (same | sameifok | erase) / map description of a render case
 	Want string `json:"want,omitempty"` // expected canonical tree (oracle built through the public constructors)
-	Aux  string `json:"aux,omitempty"`  // generator specific
+	Aux  string `json:"aux,omitempty"`  // generator specific (source of the tree of a render case: q | json)
 	Idx  int    `json:"idx"`            // index within the generator (replay)
 }
+
+// Probe is one question put to both the implementation and the model.
+type Probe struct {
+	Op    string            // q | uj | render | lex
+	Req   string            // request line for modeld
+	Impl  map[string]string // implementation's answer by field
+	Model map[string]string // model's answer by field
+	Loose bool              // compare outcome classes only for the printing/rendering fields (tree contains a decoded map/slice)
+	Q     *impl.QResult
+	UJ    *impl.UJResult
+	Lex   *impl.LexObs
+	Expr  *expr.Expression
+}
+
+var fieldNames = map[string][]string{
+	"q":      {"P", "S", "G", "PG", "PP", "J"},
+	"uj":     {"U", "V", "S", "G", "J", "R", "RP"},
+	"render": {"R", "RP"},
+	"lex":    {"LEX"},
+}
+
+// printed fields: the model prefixes the text with c: (clean, compared exactly) or u: (not modelled exactly)
+var printedField = map[string]bool{"S": true, "G": true}
+
+// looseField: fields compared by outcome class only when the probe is Loose
+var looseField = map[string]bool{"S": true, "G": true, "J": true, "R": true, "RP": true}
 
 // Failure is a case that counts against the property.
 type Failure struct {
@@ -85,60 +112,34 @@ func garbled(out string, inputs ...string) bool {
 	for _, in := range inputs {
 		m += len(fmtMarker.FindAllStringIndex(in, -1))
 	}
-	return n > m*4 // user text can be repeated by a range rendering; a real marker adds to the count
+	return n > m*4 // user text can be repeated by a rendering; a real marker adds to the count
 }
 
-type qOut struct {
-	impl  impl.QResult
-	model map[string]string
+func outcomeKind(f string) string {
+	switch {
+	case strings.HasPrefix(f, "ok:"):
+		return "ok"
+	case f == "err", f == "panic", f == "-", f == "0", f == "1":
+		return f
+	}
+	return "other"
 }
 
-func splitModelQ(resp string) map[string]string {
-	f := strings.Split(resp, "\t")
-	m := map[string]string{}
-	names := []string{"P", "S", "G", "PG", "PP"}
-	for i, n := range names {
-		if i < len(f) {
-			m[n] = f[i]
+// fieldAgrees compares one field of a probe.
+func fieldAgrees(name string, p *Probe) bool {
+	iv, mv := p.Impl[name], p.Model[name]
+	if p.Loose && looseField[name] {
+		return outcomeKind(iv) == outcomeKind(mv)
+	}
+	if printedField[name] {
+		if strings.HasPrefix(mv, "ok:c:") {
+			return iv == "ok:"+mv[5:]
+		}
+		if strings.HasPrefix(mv, "ok:u:") {
+			return strings.HasPrefix(iv, "ok:")
 		}
 	}
-	return m
-}
-
-// cmpPrinted compares a printed text field: the model prefixes clean texts with "c:" and unclean ones with "u:".
-func cmpPrinted(implF, modelF string) bool {
-	if strings.HasPrefix(modelF, "ok:c:") {
-		return implF == "ok:"+modelF[5:]
-	}
-	if strings.HasPrefix(modelF, "ok:u:") {
-		return strings.HasPrefix(implF, "ok:")
-	}
-	return implF == modelF
-}
-
-func implMapQ(r impl.QResult) map[string]string {
-	return map[string]string{"P": r.P, "S": r.S, "G": r.G, "PG": r.PG, "PP": r.PP}
-}
-
-// diffQ lists the fields on which implementation and model differ.
-func diffQ(r impl.QResult, m map[string]string) []string {
-	var d []string
-	if r.P != m["P"] {
-		d = append(d, "P")
-	}
-	if !cmpPrinted(r.S, m["S"]) {
-		d = append(d, "S")
-	}
-	if !cmpPrinted(r.G, m["G"]) {
-		d = append(d, "G")
-	}
-	if r.PG != m["PG"] {
-		d = append(d, "PG")
-	}
-	if r.PP != m["PP"] {
-		d = append(d, "PP")
-	}
-	return d
+	return iv == mv
 }
 
 // engine runs cases through implementation and model.
@@ -146,7 +147,7 @@ type engine struct {
 	cfg     RunConfig
 	prop    *Property
 	stats   *Stats
-	watch   []atomic.Value // per worker: current case description + start time
+	watch   []atomic.Value
 	started []atomic.Int64
 }
 
@@ -163,112 +164,148 @@ func (e *engine) worker(id int, cases <-chan []Case, wg *sync.WaitGroup) {
 	}
 }
 
-func (e *engine) note(key string, n int64) {
-	e.stats.Dist[key] += n
+func qProbe(s, df string) *Probe {
+	r := impl.RunQuery(s, df)
+	j := "-"
+	if r.Expr != nil {
+		j = impl.MarshalExpr(r.Expr)
+	}
+	return &Probe{Op: "q", Req: "q\t" + impl.Hex(s) + "\t" + impl.Hex(df), Q: &r, Expr: r.Expr,
+		Impl: map[string]string{"P": r.P, "S": r.S, "G": r.G, "PG": r.PG, "PP": r.PP, "J": j}}
 }
 
-func outcomeKind(f string) string {
-	switch {
-	case strings.HasPrefix(f, "ok:"):
-		return "ok"
-	case f == "err", f == "panic", f == "-":
-		return f
+func ujProbe(data string) *Probe {
+	r := impl.RunUnjson(data)
+	return &Probe{Op: "uj", Req: "uj\t" + impl.Hex(data), UJ: &r, Expr: r.Expr, Loose: strings.Contains(r.U, "opaque") || strings.Contains(r.U, "nilptr"),
+		Impl: map[string]string{"U": r.U, "V": r.V, "S": r.S, "G": r.G, "J": r.J, "R": r.R, "RP": r.RP}}
+}
+
+func renderProbe(e *expr.Expression, desc string) *Probe {
+	out := strings.Split(impl.RunRender(e, desc), "\t")
+	canon := impl.CanonExpr(e)
+	return &Probe{Op: "render", Req: "render\t" + desc + "\t" + canon, Expr: e, Loose: strings.Contains(canon, "opaque"),
+		Impl: map[string]string{"R": out[0], "RP": out[1]}}
+}
+
+func lexProbe(c *Case) *Probe {
+	o := impl.RunLexObs(c.S, fnv(c.S)^uint64(c.Idx))
+	if strings.HasSuffix(o.Stream, ";err") {
+		if r := impl.RunQuery(c.S, c.DF); r.P != "err" {
+			o.Fails = append(o.Fails, "input with a lexical error was not rejected by Parse: "+r.P)
+		}
 	}
-	return "other"
+	return &Probe{Op: "lex", Req: "lex\t" + impl.Hex(c.S), Lex: &o, Impl: map[string]string{"LEX": o.Stream}}
+}
+
+// probesOf runs the implementation for one case.
+func probesOf(c *Case) []*Probe {
+	switch c.Kind {
+	case "q", "tree":
+		return []*Probe{qProbe(c.S, c.DF)}
+	case "pair":
+		return []*Probe{qProbe(c.S, c.DF), qProbe(c.S2, c.DF2)}
+	case "lex":
+		return []*Probe{lexProbe(c)}
+	case "uj":
+		return []*Probe{ujProbe(c.S)}
+	case "rt":
+		// query → JSON → decode: the second probe decodes the implementation's own encoding
+		q := qProbe(c.S, c.DF)
+		ps := []*Probe{q}
+		if strings.HasPrefix(q.Impl["J"], "ok:") {
+			raw, _ := hexDecode(q.Impl["J"][3:])
+			ps = append(ps, ujProbe(raw))
+		}
+		return ps
+	case "render":
+		var first *Probe
+		if c.Aux == "json" {
+			first = ujProbe(c.S)
+		} else {
+			first = qProbe(c.S, c.DF)
+		}
+		e := first.Expr
+		ps := []*Probe{first}
+		if e != nil {
+			ps = append(ps, renderProbe(e, c.Rel))
+			if strings.HasPrefix(c.Rel, "override:") {
+				ps = append(ps, renderProbe(e, "pg"))
+			}
+		}
+		return ps
+	}
+	return nil
 }
 
 // runBatch evaluates a batch of cases; all model questions of the batch are pipelined.
 func (e *engine) runBatch(id int, mp *modelproc.Proc, batch []Case) {
-	type pending struct {
-		c     *Case
-		qs    []impl.QResult // implementation results of the queries of this case
-		lines []int          // indexes into reqs
-		lexo  *impl.LexObs   // implementation result of a lex case
-	}
 	var reqs []string
-	pend := make([]pending, len(batch))
+	all := make([][]*Probe, len(batch))
 	for i := range batch {
 		c := &batch[i]
 		e.watch[id].Store(*c)
 		e.started[id].Store(time.Now().UnixNano())
-		p := pending{c: c}
-		addQ := func(s, df string) {
-			p.qs = append(p.qs, impl.RunQuery(s, df))
-			p.lines = append(p.lines, len(reqs))
-			reqs = append(reqs, "q\t"+impl.Hex(s)+"\t"+impl.Hex(df))
-		}
-		switch c.Kind {
-		case "q", "tree":
-			addQ(c.S, c.DF)
-		case "pair":
-			addQ(c.S, c.DF)
-			addQ(c.S2, c.DF2)
-		case "lex":
-			o := impl.RunLexObs(c.S, fnv(c.S)^uint64(c.Idx))
-			p.lexo = &o
-			p.lines = append(p.lines, len(reqs))
-			reqs = append(reqs, "lex\t"+impl.Hex(c.S))
-			// a lexical error must make Parse fail
-			if strings.HasSuffix(o.Stream, ";err") {
-				if r := impl.RunQuery(c.S, c.DF); r.P != "err" {
-					o.Fails = append(o.Fails, "input with a lexical error was not rejected by Parse: "+r.P)
-				}
-			}
-		}
+		ps := probesOf(c)
 		e.started[id].Store(0)
-		pend[i] = p
+		for _, p := range ps {
+			reqs = append(reqs, p.Req)
+		}
+		all[i] = ps
 	}
 	resps, err := mp.AskBatch(reqs)
 	if err != nil {
 		fmt.Fprintln(os.Stderr, "model driver failure:", err)
 		os.Exit(2)
 	}
+	k := 0
 	st := e.stats
 	st.mu.Lock()
 	defer st.mu.Unlock()
-	for _, p := range pend {
-		c := p.c
+	for i := range batch {
+		c := &batch[i]
+		ps := all[i]
 		st.Cases++
 		st.PerGen[c.Gen]++
 		var fails []Failure
-		var models []map[string]string
-		if p.lexo != nil {
-			m := resps[p.lines[0]]
-			if p.lexo.Stream != m && e.prop.Fields["LEX"] {
-				fails = append(fails, Failure{Case: *c, Class: "disagree", Clause: "token stream", Impl: map[string]string{"LEX": p.lexo.Stream}, Model: map[string]string{"LEX": m}})
-			}
-			if e.prop.Fields["LEX"] {
-				for _, cl := range p.lexo.Fails {
-					fails = append(fails, Failure{Case: *c, Class: "spec", Clause: cl, Impl: map[string]string{"LEX": p.lexo.Stream}, Model: map[string]string{"LEX": m}})
+		for pi, p := range ps {
+			f := strings.Split(resps[k], "\t")
+			k++
+			p.Model = map[string]string{}
+			for fi, name := range fieldNames[p.Op] {
+				if fi < len(f) {
+					p.Model[name] = f[fi]
 				}
 			}
-			e.note("lex-end:"+p.lexo.Stream[strings.LastIndex(p.lexo.Stream, ";")+1:], 1)
-			ntok := strings.Count(p.lexo.Stream, ":")
-			if ntok >= 2 {
-				st.Accepted++
-				st.Distinct[fnv(c.S)] = struct{}{}
-			}
-		}
-		for k, r := range p.qs {
-			m := splitModelQ(resps[p.lines[k]])
-			models = append(models, m)
-			for _, f := range diffQ(r, m) {
-				if e.prop.Fields[f] {
-					fails = append(fails, Failure{Case: *c, Class: "disagree", Clause: fmt.Sprintf("field %s of query %d", f, k+1), Impl: implMapQ(r), Model: m})
+			for _, name := range fieldNames[p.Op] {
+				if e.prop.Fields[name] && !fieldAgrees(name, p) {
+					fails = append(fails, Failure{Case: *c, Class: "disagree", Clause: fmt.Sprintf("field %s of probe %d (%s)", name, pi+1, p.Op), Impl: p.Impl, Model: p.Model})
 				}
 			}
-			e.note("P:"+outcomeKind(r.P), 1)
-			e.note("PG:"+outcomeKind(r.PG), 1)
-			e.note("PP:"+outcomeKind(r.PP), 1)
+			for _, name := range fieldNames[p.Op] {
+				st.Dist[p.Op+"."+name+":"+outcomeKind(p.Impl[name])]++
+			}
 		}
-		if len(p.qs) > 0 && strings.HasPrefix(p.qs[0].P, "ok:") {
+		nontrivial := false
+		if len(ps) > 0 {
+			p0 := ps[0]
+			switch p0.Op {
+			case "q":
+				nontrivial = strings.HasPrefix(p0.Impl["P"], "ok:")
+			case "uj":
+				nontrivial = strings.HasPrefix(p0.Impl["U"], "ok:(E")
+			case "lex":
+				nontrivial = strings.Count(p0.Impl["LEX"], ":") >= 2
+				st.Dist["lex-end:"+p0.Impl["LEX"][strings.LastIndex(p0.Impl["LEX"], ";")+1:]]++
+			}
+		}
+		if nontrivial {
 			st.Accepted++
-			st.Distinct[fnv(c.S+"\x00"+c.DF+"\x00"+c.S2+"\x00"+c.DF2)] = struct{}{}
+			st.Distinct[fnv(c.S+"\x00"+c.DF+"\x00"+c.S2+"\x00"+c.DF2+"\x00"+c.Rel)] = struct{}{}
 		}
 		// specs judged on the implementation's own outputs
-		if len(p.qs) > 0 {
-			for _, sf := range e.prop.Spec(c, p.qs) {
-				fails = append(fails, Failure{Case: *c, Class: "spec", Clause: sf, Impl: implMapQ(p.qs[0]), Model: models[0]})
+		if len(ps) > 0 {
+			for _, sf := range e.prop.Spec(c, ps) {
+				fails = append(fails, Failure{Case: *c, Class: "spec", Clause: sf, Impl: ps[0].Impl, Model: ps[0].Model})
 			}
 		}
 		if len(st.Samples) < 3 || (st.Cases%50021 == 0 && len(st.Samples) < 12) {
@@ -365,7 +402,7 @@ type Result struct {
 func report(cfg RunConfig, st *Stats, wall time.Duration) int {
 	res := Result{Property: cfg.Prop, Tier: cfg.Tier, Seed: cfg.Seed, Cases: st.Cases, Accepted: st.Accepted,
 		Distinct: len(st.Distinct), PerGen: st.PerGen, Dist: st.Dist, Samples: st.Samples,
-		Disagree: st.Disagree, SpecFails: st.SpecFails, WallS: wall.Seconds(), Failures: st.Failures}
+		Disagree: st.Disagree, SpecFails: st.SpecFails, WallS: wall.Seconds()}
 	kf := loadFindings(cfg.Findings)
 	seenKnown := map[string]bool{}
 	exit := 0
@@ -412,6 +449,11 @@ func report(cfg RunConfig, st *Stats, wall time.Duration) int {
 		res.Known = append(res.Known, id)
 	}
 	sort.Strings(res.Known)
+	nf := len(st.Failures)
+	if nf > 300 {
+		nf = 300
+	}
+	res.Failures = st.Failures[:nf]
 	if cfg.Out != "" {
 		if err := writeJSON(cfg.Out, res); err != nil {
 			fmt.Fprintln(os.Stderr, err)
